@@ -276,7 +276,8 @@ impl ExpressionPosTrait for ExpressionPos {
             match element {
                 Expression::BinaryExpression(r_op, r_left, r_right, _) => {
                     // apply the unary operator to the left of the binary expr
-                    let new_left = Expression::UnaryExpression(op, r_left).at_pos(op_pos);
+                    // (which may be a binary expr itself, e.g. in `-A + B - C`)
+                    let new_left = r_left.apply_unary_priority_order(op, op_pos);
                     // and nest it as left inside a binary expr
                     new_left.binary_expr(r_op, *r_right, pos)
                 }
